@@ -111,6 +111,31 @@ def one(sid, rnd, rt, exts, trig):
     return s.done()
 
 
+def busy_subscriber(sid, rnd, trig, exits):
+    """an extension subscribed to INVOKE and SHUTDOWN is busy with the event when the reset starts; when it polls
+    again it is handed the SHUTDOWN event (reason, deadline) at once - it was not parked when the reset released it"""
+    s = Scn(sid, ext=["e1"], timeout_ms=400, opWaitMs=8000, onTerm={"runtime": "exit", "e1": "ignore"})
+    s.meta(family="shutdown", rt="running", exts={"e1": "sub-busy"}, trigger=trig)
+    subs = {"e1": ["INVOKE", "SHUTDOWN"]}
+    tags = s.boot(subs)
+    s.round(tags, subs)
+    inv = s.invoke(size=3, seed=1)
+    s.wait(tags["rt"])
+    s.wait(tags["ext:e1"])          # e1 is Running (busy with the event)
+    if trig == "failure":
+        s.exit("rt", code=1)
+    if trig == "timeout":
+        s.until_ev("Terminate", n=1)
+    s.sleep(rnd.choice([40, 80, 150]))
+    t = s.call("ext:e1", "next", async_=True)
+    s.wait(t)                       # SHUTDOWN, without waiting for the deadline
+    if exits:
+        s.exit("ext:e1", code=0)
+    s.wait(inv)
+    s.recover(subs)
+    return s.done()
+
+
 def scenarios(ctx):
     rnd = random.Random(ctx.seed * 97 + 9)
     combos = []
@@ -132,7 +157,14 @@ def scenarios(ctx):
                 for b in c[1]:
                     seen.add(("e", b))
         combos = (keep + combos[:30])[:48]
-    return [one("c09-%03d" % i, rnd, rt, exts, trig) for i, (rt, exts, trig) in enumerate(combos)]
+    out = [one("c09-%03d" % i, rnd, rt, exts, trig) for i, (rt, exts, trig) in enumerate(combos)]
+    k = 0
+    for trig in ("timeout", "failure"):
+        for exits in (True, False):
+            for rep in range(1 if ctx.quick else 4):
+                k += 1
+                out.append(busy_subscriber("c09-busy%02d" % k, rnd, trig, exits))
+    return out
 
 
 def run(ctx):
